@@ -28,7 +28,7 @@ META = {
     "assumptions": ["rulebooks use only the standard diff logics (default, %ordered, %rewrite)",
                     "an unchanged %rewrite group is absent from the diff by design; the projection re-adds such rows only when old "
                     "and new agree on them",
-                    "rows contain no leading sign characters"],
+                    "rows contain no leading sign characters", "families D1 (default), D2 (%ordered leaves), D3 (%rewrite), D4 (%ordered blocks); the diff worker of `annet diff` is driven with old_new / get_rulebook stood in"],
     "outside": ["vendor %diff_logic functions", "%multiline", "ignore_case rules",
                 "old-side ORDER of %ordered rows that the diff marks MOVED or REMOVED (the merged listing keeps the new position "
                 "of kept rows only; see DESIGN.md C03)"],
